@@ -412,6 +412,21 @@ def RxnOk (lv : List (Name × Nat)) (maps : List (Name × List Nat)) (r : BRxn) 
   | some lm => nProd lv r ≤ lm.length ∧ MassAction lv r
   | none => (∀ kv ∈ r.stoich, lv.lookup kv.1 = none) ∧ (r.stoich.map (·.1)).Nodup
 
+/-- the flux of the base reaction called `n` at the totals of an isotopomer state (the `fluxes`
+    argument of `LinearLabelMapper.build_model` when it is taken from the base model at the same
+    pools); a name that is no reaction reads 0 -/
+def fluxAtTotals (b : Base) (lv : List (Name × Nat)) (σ : LName → Rat) (n : Name) : Rat :=
+  match b.rxns.find? (fun r => r.name == n) with
+  | some r => r.rate (totalsEnv lv σ)
+  | none => 0
+
+/-- net stoichiometric coefficient of compound `x` in the base reaction called `n` (0 for a name that
+    is no reaction) -/
+def netOf (b : Base) (n x : Name) : Int :=
+  match b.rxns.find? (fun r => r.name == n) with
+  | some r => netStoich r.stoich x
+  | none => 0
+
 /-! ### numeric reading of a whole labelled model (driver side of the tie) -/
 
 /-- value of a name at a state of the labelled model: state variables, parameters, totals
